@@ -515,3 +515,55 @@ package ro
 //@   on complete@source(ctx) when !(outerLive == 0 && live == 1) : emits ; live' = live - 1
 //@   given complete@sources : outerLive == 1
 //@   given complete@source : live >= 1
+
+//@ operator TakeUntil
+//@   props C05 C14
+//@   on next@source(ctx, value) when ready == 1 : emits
+//@   on next@source(ctx, value) when ready != 1 : emits Next(ctx, value)
+//@   on next@signal(ctx, value) : emits Complete(ctx) ; post ready' == 1
+
+//@ operator SkipUntil
+//@   props C05
+//@   on next@source(ctx, value) when ready == 1 : emits Next(ctx, value)
+//@   on next@source(ctx, value) when ready != 1 : emits
+//@   on next@signal(ctx, value) : emits ; post ready' == 1
+
+//@ operator ThrottleWhen
+//@   props C05 C16
+//@   on next@tick(ctx, value) : emits ; post send' == 1
+//@   on next@source(ctx, value) when send == 1 : emits Next(ctx, value) ; post send' == 0
+//@   on next@source(ctx, value) when send != 1 : emits ; post send' == send
+
+//@ operator BufferWhen
+//@   props C05 C16 C04
+//@   on next@source(ctx, value) : emits ; post len(buffer') == len(buffer) + 1 && buffer'[len(buffer)] == value
+//@   on complete@source(ctx) : emits Next(ctx, buffer), Complete(ctx)
+//@   on next@boundary(ctx, value) : emits Next(ctx, buffer)
+//@   on complete@boundary(ctx) : emits Next(ctx, buffer), Complete(ctx)
+
+//@ operator SampleWhen
+//@   props C05 C16 C09
+//@   inv hasValue ==> last.A != nil
+//@   on next@source(ctx, value) : emits ; post hasValue' == true && last'.A == ctx && last'.B == value
+//@   on next@tick(ctx, value) when hasValue : emits Next(last.A, last.B) ; post hasValue' == false
+//@   on next@tick(ctx, value) when !hasValue : emits
+
+//@ operator WindowWhen
+//@   props C05 C20
+//@   track window.* call.NewUnicastSubject
+//@   inv window != nil
+//@   on next@source(ctx, value) : emits window.NextWithContext(ctx, value)
+//@   on error@source(ctx, err) : emits window.CompleteWithContext(ctx), Error(ctx, err)
+//@   on complete@source(ctx) : emits window.CompleteWithContext(ctx), Complete(ctx)
+//@   on next@boundary(ctx, value) : emits call.NewUnicastSubject(_), window.CompleteWithContext(ctx), Next(ctx, res(call.NewUnicastSubject)) ; post window' == res(call.NewUnicastSubject)
+//@   on error@boundary(ctx, err) : emits window.CompleteWithContext(ctx), Error(ctx, err)
+//@   on complete@boundary(ctx) : emits window.CompleteWithContext(ctx), Complete(ctx)
+
+//@ operator GroupByIWithContext
+//@   props C05 C20 C09
+//@   alias subject=NewUnicastSubject()
+//@   track groups.Load groups.Store elem.* call.NewUnicastSubject NewUnicastSubject().*
+//@   ghost n int = 0
+//@   inv i == n
+//@   on next(ctx, value) when res(groups.Load, 1) : emits groups.Load(iteratee_1(ctx, value, n)), elem.NextWithContext(iteratee_0(ctx, value, n), value) ; n' = n + 1
+//@   on next(ctx, value) when !res(groups.Load, 1) : emits groups.Load(iteratee_1(ctx, value, n)), call.NewUnicastSubject(_), groups.Store(iteratee_1(ctx, value, n), res(call.NewUnicastSubject)), subject.NextWithContext(iteratee_0(ctx, value, n), value), Next(iteratee_0(ctx, value, n), res(call.NewUnicastSubject)) ; n' = n + 1
